@@ -106,8 +106,9 @@ def handle : List String → String
       let C := mkCodecs (cps data) tab texts (pOptName ch)
       let r := dammitSpec C (stripBom b).1 (candidatesOf C a b)
       s!"text={sOptText r.1} enc={sOptName r.2.1} repl={bit r.2.2}"
-  | ["construct", m, fromEnc, fromEncOld, excl, ch, data, tab, texts] =>
-    match constructorPrepare (mkCodecs (cps data) tab texts (pOptName ch)) (pMarkup m) (pOptName fromEnc) (pOptName fromEncOld) (pNames excl) with
+  | ["construct", form, m, fromEnc, fromEncOld, excl, ch, data, tab, texts] =>
+    let arg : MarkupArg := if form == "f" then .fileLike (pMarkup m) else .direct (pMarkup m)
+    match constructorPrepareArg (mkCodecs (cps data) tab texts (pOptName ch)) arg (pOptName fromEnc) (pOptName fromEncOld) (pNames excl) with
     | .rejected => "rejected"
     | .ok t e d r => s!"ok text={showL t} enc={sOptName e} decl={sOptName d} repl={bit r}"
   | ["prepare", m, fromEnc, docDecl, excl, ch, data, tab, texts] =>
